@@ -28,6 +28,13 @@ def oracle(kinds, explicit):
 
 
 def build(lines, explicit, entry):
+    if entry == "add0":
+        # validation switched off: mixing versions is still refused with VersionError (the version rules are not a validation level)
+        g = gfapy.Gfa(version=explicit, vlevel=0) if explicit else gfapy.Gfa(vlevel=0)
+        for l in lines:
+            g.add_line(l)
+        g.process_line_queue()
+        return g
     if entry == "init":
         g = gfapy.Gfa(lines, version=explicit, vlevel=1) if explicit else gfapy.Gfa(lines, vlevel=1)
     elif entry == "objects":
@@ -59,7 +66,7 @@ def check(case):
     outcomes = {}
     for perm in itertools.permutations(kinds):
         lines = [KIND[k] for k in perm]
-        for entry in ("add", "init", "file", "objects"):
+        for entry in ("add", "init", "file", "objects") + (("add0",) if "H3" not in kinds else ()):
             try:
                 g = build(lines, explicit, entry)
                 out = g.version
